@@ -2,7 +2,6 @@ package main
 
 import (
 	"fmt"
-	"go/token"
 	"strings"
 
 	"golang.org/x/tools/go/callgraph"
@@ -343,124 +342,3 @@ func (ro *Roles) noLostUpdate(r *Report, rule string) {
 
 // ---------------------------------------------------------------------------------
 // dequeue loop rules
-
-func (ro *Roles) dequeueLoopOld(r *Report, which map[string]bool) {
-	w := ro.w
-	if !ro.need(r, "dequeue", map[string]*ssa.Function{"start function": ro.Start, "dequeue decision": ro.DequeueDecision}) {
-		return
-	}
-	startAct := fmt.Sprint(ro.Actions["Start"])
-	for _, fn := range ro.Dequeue {
-		if fn == ro.Start {
-			continue
-		}
-		fname := FuncName(fn)
-		for _, ci := range findCalls(fn, func(_ string, c *ssa.CallCommon) bool { return c.StaticCallee() == ro.Start }) {
-			call, ok := ci.(*ssa.Call)
-			if !ok {
-				continue
-			}
-			pos := w.InstrPos(call)
-			job := call.Call.Args[len(call.Call.Args)-1]
-			// head only: the job is element 0 of a wait-list value
-			if which["head-only"] {
-				okHead := false
-				var headList ssa.Value
-				if ld, ok := w.Resolve(job).(*ssa.UnOp); ok && ld.Op == token.MUL {
-					if ia, ok := w.resolveAddr(ld.X).(*ssa.IndexAddr); ok && isConstInt(ia.Index, 0) {
-						var lks []*ssa.Lookup
-						ro.derivedLookups(ia.X, map[ssa.Value]bool{}, &lks)
-						okHead = len(lks) > 0
-						headList = ia.X
-					}
-				}
-				r.Check(okHead, "dequeue.head-only", fname+": job started from the wait list", pos, "the started job is element 0 of the pipeline's wait list", "the started job is "+w.AP(job)+", not the head (element 0) of the wait list: a job overtakes jobs accepted before it")
-				// the list is popped at the front on every path from the head load to the start (or right after it)
-				_ = headList
-			}
-			// admission guard, timer gate: on every path from the loop header to the call
-			facts := w.ifFacts(fn)
-			var admitIf, timerIf *ifFact
-			for i, f := range facts {
-				if f.Atom.Op == "==" && strings.HasPrefix(f.Atom.L, FuncName(ro.DequeueDecision)+"(") && f.Atom.R == startAct {
-					admitIf = &facts[i]
-				}
-				if f.Atom.Op == "==" && strings.HasSuffix(f.Atom.L, ".startTimer") && f.Atom.R == "nil" {
-					timerIf = &facts[i]
-				}
-			}
-			mustPassEdge := func(f *ifFact, wantTrue bool) PathResult {
-				// every cycle/path reaching the call must take the wanted edge of f: block the wanted
-				// edge and ask whether the call is still reachable from the function entry.
-				return PathQuery{Fn: fn, Target: func(x ssa.Instruction) bool { return x == ssa.Instruction(call) },
-					BlockEdge: func(b *ssa.BasicBlock, s int) bool {
-						if b != f.If.Block() {
-							return false
-						}
-						if wantTrue {
-							return s == f.SuccTrue
-						}
-						return s == f.SuccFalse
-					}}.Find()
-			}
-			if which["admit-guard"] {
-				if admitIf == nil {
-					r.Viol("dequeue.admit-guard", fname+": start only on Start", pos, "the dequeue function starts a job without testing the dequeue decision against Start")
-				} else {
-					res := mustPassEdge(admitIf, true)
-					// fresh: the decision is re-taken before every start — the test lies on the cycle
-					fresh := !(PathQuery{Fn: fn, Start: []ssa.Instruction{call}, Target: func(x ssa.Instruction) bool { return x == ssa.Instruction(call) },
-						BlockEdge: func(b *ssa.BasicBlock, s int) bool { return b == admitIf.If.Block() && s == admitIf.SuccTrue }}.Find().Found)
-					r.Check(!res.Found && fresh, "dequeue.admit-guard", fname+": start only on a fresh Start decision", pos,
-						"every path to the start call (and around the loop to the next one) takes the `decision == Start` edge of a decision taken in that iteration",
-						"the start call is reachable without a fresh `decision == Start` edge ("+res.String()+"): a queued job is started although no slot is free")
-					// the decision is asked for the same job that is started
-					okSame := strings.Contains(admitIf.Atom.L, ","+w.AP(job)+")")
-					r.Check(okSame, "dequeue.decision-for-head", fname+": decision is about the started job", pos, "the decision is computed for the job that is started", "the decision is computed for "+admitIf.Atom.L+" but "+w.AP(job)+" is started")
-				}
-			}
-			if which["timer-gate"] {
-				if timerIf == nil {
-					r.Viol("dequeue.timer-gate", fname+": no start while the delay timer is pending", pos, "the dequeue function never tests the head's start timer: a delayed job can start before its delay expired")
-				} else {
-					res := mustPassEdge(timerIf, true)
-					okJob := strings.HasPrefix(timerIf.Atom.L, w.AP(job)+".")
-					r.Check(!res.Found && okJob, "dequeue.timer-gate", fname+": no start while the delay timer is pending", pos,
-						"every path to the start call takes the `head.startTimer == nil` edge", "the start call is reachable without the `startTimer == nil` edge of the started job ("+res.String()+"): a delayed job starts before its delay has passed")
-				}
-			}
-			// the popped job leaves the list before/when it is started: a pop-front of the same list on every path from call to loop back edge or before the call
-			if which["pop-on-start"] {
-				popped := false
-				allInstrs(fn, func(in ssa.Instruction) {
-					if sl, ok := in.(*ssa.Slice); ok && sl.Low != nil && isConstInt(sl.Low, 1) && sl.High == nil {
-						var lks []*ssa.Lookup
-						ro.derivedLookups(sl.X, map[ssa.Value]bool{}, &lks)
-						if len(lks) > 0 && (instrDominates(sl, call) || instrDominates(call, sl)) {
-							popped = true
-						}
-					}
-				})
-				r.Check(popped, "dequeue.pop-on-start", fname+": started job leaves the wait list", pos, "the list is popped at the front in the same iteration as the start", "the started job is not popped from the front of the wait list: it stays queued and is started again")
-			}
-		}
-		// stop reasons: the loop exits only on an empty list, decision ≠ Start, or head timer pending
-		if which["stop-reasons"] {
-			okStop := true
-			why := ""
-			for _, f := range w.ifFacts(fn) {
-				a := f.Atom
-				switch {
-				case a.Op == "<=" && strings.HasPrefix(a.L, "len(") && a.R == "0", a.Op == "<" && a.L == "0" && strings.HasPrefix(a.R, "len("):
-				case a.Op == "==" && strings.HasPrefix(a.L, "len(") && a.R == "0":
-				case a.Op == "==" && strings.HasPrefix(a.L, FuncName(ro.DequeueDecision)+"(") && a.R == startAct:
-				case a.Op == "==" && strings.HasSuffix(a.L, ".startTimer") && a.R == "nil":
-				default:
-					okStop = false
-					why = a.String()
-				}
-			}
-			r.Check(okStop, "dequeue.stop-reasons", fname+": why the loop stops", w.Pos(fn.Pos()), "the dequeue loop stops only on: empty list, decision ≠ Start, head timer pending", "the dequeue loop has another branch ("+why+"): a stop reason that no event re-triggers can strand the queue")
-		}
-	}
-}
